@@ -297,6 +297,11 @@ struct Stats {
     anchor_deeper: u64,
     crossing_attempts: u64,
     probes: u64,
+    insuf_gaps: u64,
+    insuf_nothing_selectable: u64,
+    insuf_sendmax: u64,
+    insuf_amount_near_total: u64,
+    insuf_unexplained: u64,
     self_contradictions: u64,
     selected_notes: u64,
     witnesses_checked: u64,
@@ -934,6 +939,27 @@ fn do_propose(ctx: &Ctx, h: &mut Hist, m: &mut Model, st: &mut Stats, spec: &Pro
         }
         Err(PErr::Insufficient { available, required }) => {
             st.err_insufficient += 1;
+            let requested: u64 = resolved.pays.iter().map(|x| x.1).sum();
+            if gaps_exist {
+                st.insuf_gaps += 1;
+            } else if basis == 0 {
+                st.insuf_nothing_selectable += 1;
+            } else if matches!(spec.kind, Kind::SendMax { .. }) {
+                st.insuf_sendmax += 1;
+            } else if requested.saturating_add(10_000 + MARGINAL_FEE * n_live as u64) > basis {
+                st.insuf_amount_near_total += 1;
+            } else {
+                st.insuf_unexplained += 1;
+                if std::env::var("VERIF_C08_DEBUG").is_ok() && available >= required {
+                    eprintln!(
+                        "[c08-debug] HAVE>=NEED {step}: available {available} required {required}; target {target}; notes {:?}",
+                        states.iter().map(|(n, s)| (h.chain.notes[*n].pool, h.chain.notes[*n].value, h.chain.notes[*n].height, h.chain.notes[*n].scope, h.chain.notes[*n].position, *s)).collect::<Vec<_>>()
+                    );
+                }
+                if std::env::var("VERIF_C08_DEBUG").is_ok() {
+                    eprintln!("[c08-debug] unexplained insufficient: requested {requested} basis {basis} available {available} required {required} kind {:?} pol {pol:?}", spec.kind);
+                }
+            }
             // Liveness is only flagged on overwhelming evidence (see the rule text in main()).
             let everything_scanned = !gaps_exist;
             if everything_scanned && dust_candidates == 0 && conservative >= required.saturating_add(100_000) && !matches!(spec.kind, Kind::SendMax { .. }) {
@@ -1502,6 +1528,11 @@ fn run_case(ctx: &Ctx, case: &C08Case) -> CaseResult {
         .count("pending-txs-stored", st.executed_ok)
         .count("execute-errors", st.execute_err)
         .count("attempts-with-pending-spent-note", st.wallet_pending_candidate)
+        .count("insufficient:wallet-has-unscanned-gaps", st.insuf_gaps)
+        .count("insufficient:model-sees-nothing-selectable", st.insuf_nothing_selectable)
+        .count("insufficient:send-max", st.insuf_sendmax)
+        .count("insufficient:amount-within-fees-of-or-above-model-total", st.insuf_amount_near_total)
+        .count("insufficient:not-explained-by-model", st.insuf_unexplained)
         .count("insufficient-funds-probes", st.probes)
         .count("self-contradictions", st.self_contradictions)
         .count("canonical-crossing-attempts", st.crossing_attempts)
